@@ -121,6 +121,23 @@ impl Family for C18Family {
                 }
             }
         }
+        // pinAuth (present, and present but zero-length: the CTAP 2.0 selection probe) now and then
+        for op in c.actors[0].ops.iter_mut() {
+            if r.chance(1, 8) {
+                let empty = r.bool();
+                match &mut op.kind {
+                    OpKind::MakeCredential(s) => {
+                        s.pin_auth = true;
+                        s.pin_empty = empty;
+                    }
+                    OpKind::GetAssertion(s) => {
+                        s.pin_auth = true;
+                        s.pin_empty = empty;
+                    }
+                    _ => {}
+                }
+            }
+        }
         for op in c.actors[0].ops.iter_mut() {
             if r.chance(1, 4) {
                 op.list_transports = (0..4).map(|_| r.below(6) as u8).collect();
@@ -139,7 +156,7 @@ impl Family for C18Family {
         direct.twin = Twin::None;
         let rec = run_and_measure(&direct, stats);
         let mut j = Judge::new("C18", scn, &rec);
-        for p in ["three_denied_verifications_in_a_row", "capability_changed_between_calls", "get_info_through_trait", "make_credential_through_trait", "get_assertion_through_trait", "failing_op_through_trait", "cancelled_op_through_trait"] {
+        for p in ["three_denied_verifications_in_a_row", "capability_changed_between_calls", "get_info_through_trait", "make_credential_through_trait", "get_assertion_through_trait", "failing_op_through_trait", "cancelled_op_through_trait", "zero_length_pin_auth", "configured_transports_in_get_info"] {
             stats.declare_probe(p);
         }
         if rec.panic.is_some() || rec.outcome != Outcome2::Done {
@@ -180,9 +197,24 @@ impl Family for C18Family {
             sig.write_str(&format!("{:?}|{}", std::mem::discriminant(kind), short_result(&a.result).split(' ').next().unwrap_or("")));
             match kind {
                 OpKind::SetCapability { .. } => stats.probe("capability_changed_between_calls"),
-                OpKind::GetInfo { .. } => stats.probe("get_info_through_trait"),
-                OpKind::MakeCredential(_) => stats.probe("make_credential_through_trait"),
-                OpKind::GetAssertion(_) => stats.probe("get_assertion_through_trait"),
+                OpKind::GetInfo { .. } => {
+                    stats.probe("get_info_through_trait");
+                    if c.actors[0].transports != 0 {
+                        stats.probe("configured_transports_in_get_info");
+                    }
+                }
+                OpKind::MakeCredential(m) => {
+                    stats.probe("make_credential_through_trait");
+                    if m.pin_auth && m.pin_empty {
+                        stats.probe("zero_length_pin_auth");
+                    }
+                }
+                OpKind::GetAssertion(g) => {
+                    stats.probe("get_assertion_through_trait");
+                    if g.pin_auth && g.pin_empty {
+                        stats.probe("zero_length_pin_auth");
+                    }
+                }
                 _ => {}
             }
             if a.result.is_err() {
